@@ -1202,6 +1202,14 @@ func (p *Parser) parseBindingElement(decl DeclType) (bindingElement BindingEleme
 }
 
 func (p *Parser) parseBinding(decl DeclType) (binding IBinding) {
+	// binding patterns nest, count them as nested expressions
+	p.exprLevel++
+	defer func() { p.exprLevel-- }()
+	if NestedExprLimit < p.exprLevel {
+		p.failMessage("too many nested expressions")
+		return
+	}
+
 	// BindingIdentifier, BindingPattern
 	if p.isIdentifierReference(p.tt) {
 		var ok bool
